@@ -279,8 +279,8 @@ def decide(tier, seed):
         open(probe_v, "w").write("From Coq Require Import List String Bool.\nImport ListNotations.\nRequire Import AutoTraits AutoTraits_gen.\n"
                                  "Eval vm_compute in map (fun e => (e_id e, e_send e, agrees e, only_children (e_send e) (needs (e_send e) (e_ty e)))) "
                                  "(filter (fun e => negb (entry_ok e)) crate_types).\n")
+        driver.coq_make(["Gen/AutoTraits_gen.vo"])        # takes the coq lock itself
         with Lock("coq"):
-            driver.coq_make(["Gen/AutoTraits_gen.vo"])
             r = sh(f"cd {COQ} && timeout 600 coqc -R . FC {probe_v} 2>&1")
         for m in re.finditer(r"\((\d+), (true|false), (true|false), (true|false)\)", r.stdout):
             i, send, agree, prop = int(m.group(1)), m.group(2) == "true", m.group(3) == "true", m.group(4) == "true"
